@@ -8,7 +8,7 @@ namespace Petl.Snapshot
 open Petl.Gen
 
 def expectedC06 : List (String × String) := [
-  ("file:comparison.py", "17971f67ee946013"),
+  ("file:comparison.py", "c46d05a1308c92ce"),
   ("file:config.py", "142bde514c82c29d"),
   ("file:transform/basics.py", "ef1ded632cafe787"),
   ("file:transform/joins.py", "bb9e0069e4d5e3a6"),
